@@ -1,0 +1,245 @@
+//! Verification hooks (only compiled with `--cfg compio_verif`).
+//!
+//! A global, thread-safe, append-only event sink plus a pause/fault injector.
+//! Nothing in here changes the behaviour of the driver: events are recorded
+//! only while [`enable`]d, and [`pause`] is a no-op until a hook is installed.
+
+#![allow(missing_docs)]
+
+use std::sync::{
+    Mutex,
+    atomic::{AtomicBool, AtomicU64, AtomicUsize, Ordering},
+};
+
+/// Kinds of recorded events. `(a, b, c)` meaning per kind is documented in
+/// /verif/DESIGN.md appendix A.
+#[derive(Debug, Clone, Copy, PartialEq, Eq, Hash)]
+#[repr(u8)]
+pub enum Kind {
+    /// a = op_id, b = storage addr (user_data), c = type-name id
+    OpNew = 1,
+    /// a = addr, b = route (0 sqe, 1 poll-wait, 2 pool), c = driver_id << 32 |
+    /// opcode / fd
+    Submit = 2,
+    /// a = user_data, b = flags, c = res
+    Cqe = 3,
+    /// a = addr, b = is_ok, c = value / errno
+    Final = 4,
+    /// a = op_id
+    Taken = 5,
+    /// a = op_id
+    OpFree = 6,
+    /// a = addr, b = route (0 key, 1 token), c = had_result
+    CancelReq = 7,
+    /// a = addr, b = pushed
+    CancelSqe = 8,
+    /// a = addr, b = driver_id
+    BlockingBegin = 9,
+    /// a = addr, b = driver_id
+    BlockingEnd = 10,
+    /// a = driver_id, b = type (0 iour, 1 poll)
+    DriverNew = 11,
+    /// a = driver_id
+    RingClosed = 12,
+    /// a = driver_id
+    DriverDropEnd = 13,
+    /// a = driver_id, b = timeout ns or u64::MAX
+    PollEnter = 14,
+    /// a = driver_id, b = is_ok
+    PollExit = 15,
+    /// a = driver_id, b = notified
+    FlushExit = 16,
+    /// a = notifier addr, b = elided, c = driver type
+    Wake = 17,
+    /// a = addr, b = was_cancelled
+    CancelFlag = 18,
+    /// a = addr, b = is_ok, c = value / errno (multishot item)
+    MultiItem = 19,
+    /// a = addr, b = fd (poll driver requeue after Pending)
+    Requeue = 20,
+    /// a = pool id, b = buffer id, c = 0 take / 1 reset / 2 free-by-pool
+    Pool = 21,
+    /// Harness-defined events: a, b, c free-form.
+    User = 64,
+}
+
+#[derive(Debug, Clone, Copy)]
+pub struct Event {
+    pub seq: u64,
+    pub tid: u64,
+    pub kind: Kind,
+    pub a: u64,
+    pub b: u64,
+    pub c: i64,
+}
+
+/// Points at which the driver calls [`pause`].
+#[derive(Debug, Clone, Copy, PartialEq, Eq, Hash)]
+#[repr(u8)]
+pub enum Point {
+    /// iour: after `notifier.reset()` and before entering the kernel.
+    IourBeforeWait = 0,
+    /// iour: after `submit_auto` returned and before `set_awake`.
+    IourAfterWait = 1,
+    /// iour: in `push_raw`'s overflow branch.
+    IourOverflow = 2,
+    /// poll: after `notify.reset()` and before `poller.wait`.
+    PollBeforeWait = 3,
+    /// poll: after `poller.wait` and before `set_awake`.
+    PollAfterWait = 4,
+    /// waker: between the flag update and the wake syscall.
+    WakeBeforeSyscall = 5,
+    /// pool: inside the blocking closure before it runs the operation.
+    BlockingBeforeRun = 6,
+    /// pool: after the operation ran, before the completion is sent.
+    BlockingAfterRun = 7,
+}
+
+static ENABLED: AtomicBool = AtomicBool::new(false);
+static SEQ: AtomicU64 = AtomicU64::new(1);
+static OP_ID: AtomicU64 = AtomicU64::new(1);
+static DRIVER_ID: AtomicU64 = AtomicU64::new(1);
+static LOG: Mutex<Vec<Event>> = Mutex::new(Vec::new());
+static NAMES: Mutex<Vec<&'static str>> = Mutex::new(Vec::new());
+static PAUSE: AtomicUsize = AtomicUsize::new(0);
+static UNSUPPORTED: [AtomicBool; 256] = [const { AtomicBool::new(false) }; 256];
+
+/// Turn recording on or off. Off by default.
+pub fn enable(on: bool) {
+    ENABLED.store(on, Ordering::SeqCst);
+}
+
+pub fn enabled() -> bool {
+    ENABLED.load(Ordering::Relaxed)
+}
+
+fn tid() -> u64 {
+    thread_local! {
+        static TID: u64 = {
+            static NEXT: AtomicU64 = AtomicU64::new(1);
+            NEXT.fetch_add(1, Ordering::Relaxed)
+        };
+    }
+    TID.try_with(|t| *t).unwrap_or(0)
+}
+
+/// Record one event (no-op unless enabled).
+pub fn emit(kind: Kind, a: u64, b: u64, c: i64) {
+    if !enabled() {
+        return;
+    }
+    let tid = tid();
+    let mut log = LOG.lock().unwrap_or_else(|e| e.into_inner());
+    let seq = SEQ.fetch_add(1, Ordering::Relaxed);
+    log.push(Event {
+        seq,
+        tid,
+        kind,
+        a,
+        b,
+        c,
+    });
+}
+
+/// Record a harness-side event on the same clock.
+pub fn emit_user(a: u64, b: u64, c: i64) {
+    emit(Kind::User, a, b, c)
+}
+
+/// Take all recorded events (in sequence order).
+pub fn drain() -> Vec<Event> {
+    std::mem::take(&mut *LOG.lock().unwrap_or_else(|e| e.into_inner()))
+}
+
+pub fn next_op_id() -> u64 {
+    OP_ID.fetch_add(1, Ordering::Relaxed)
+}
+
+pub fn next_driver_id() -> u64 {
+    DRIVER_ID.fetch_add(1, Ordering::Relaxed)
+}
+
+/// Intern a type name, returning its id.
+pub fn intern(name: &'static str) -> i64 {
+    if !enabled() {
+        return -1;
+    }
+    let mut names = NAMES.lock().unwrap_or_else(|e| e.into_inner());
+    if let Some(i) = names.iter().position(|n| *n == name) {
+        return i as i64;
+    }
+    names.push(name);
+    (names.len() - 1) as i64
+}
+
+pub fn type_names() -> Vec<&'static str> {
+    NAMES.lock().unwrap_or_else(|e| e.into_inner()).clone()
+}
+
+/// Install (or remove) the pause hook.
+pub fn set_pause_hook(f: Option<fn(Point)>) {
+    PAUSE.store(f.map_or(0, |f| f as usize), Ordering::SeqCst);
+}
+
+/// Called by the driver at real suspension points.
+#[inline]
+pub fn pause(p: Point) {
+    let f = PAUSE.load(Ordering::Relaxed);
+    if f != 0 {
+        let f: fn(Point) = unsafe { std::mem::transmute(f) };
+        f(p)
+    }
+}
+
+/// Pretend that io_uring does not support `code` (reaches the fallback paths).
+pub fn force_unsupported(code: u8, on: bool) {
+    UNSUPPORTED[code as usize].store(on, Ordering::SeqCst);
+}
+
+pub fn is_forced_unsupported(code: u8) -> bool {
+    UNSUPPORTED[code as usize].load(Ordering::Relaxed)
+}
+
+/// The storage address (`user_data`) of a key.
+pub fn key_addr<T>(key: &crate::Key<T>) -> usize {
+    key.as_raw()
+}
+
+fn res_parts(res: &std::io::Result<usize>) -> (u64, i64) {
+    match res {
+        Ok(n) => (1, *n as i64),
+        Err(e) => (0, e.raw_os_error().unwrap_or(-1) as i64),
+    }
+}
+
+pub(crate) fn emit_res(kind: Kind, addr: usize, res: &std::io::Result<usize>) {
+    if enabled() {
+        let (ok, v) = res_parts(res);
+        emit(kind, addr as u64, ok, v)
+    }
+}
+
+/// Lives inside every `RawOp`; its drop marks the moment the operation's heap
+/// storage (and with it the buffers/control blocks the OS may point into) goes
+/// away.
+pub(crate) struct OpProbe {
+    op_id: u64,
+}
+
+impl OpProbe {
+    pub fn new() -> Self {
+        Self {
+            op_id: next_op_id(),
+        }
+    }
+
+    pub fn id(&self) -> u64 {
+        self.op_id
+    }
+}
+
+impl Drop for OpProbe {
+    fn drop(&mut self) {
+        emit(Kind::OpFree, self.op_id, 0, 0)
+    }
+}
